@@ -110,3 +110,10 @@ def run(ctx, rep):
     if ap:
         msgs = b.expr_operand(ap[0].args[2])
         rep.ob('R17.e', T + '::append_messages', 'whole vector', msgs in (('param', 'messages'), ('upvar', 'messages')), ap[0].where(), 'passes ' + render(msgs)[:60])
+
+    rep.rule('R17.f', 'partitions are numbered 1..n without gaps: new partitions get ids n+1..n+count, removed partitions are the highest ids n-count+1..n (count clamped to n)', floor=2, analysis='A10')
+    forms.check_call_args(ctx, rep, 'R17.f', {
+        T + '::add_partitions': {'RangeInclusive::new': ['(1 + HashMap::len(self.partitions)), (HashMap::len(self.partitions) + count)']},
+        T + '::delete_persisted_partitions': {'RangeInclusive::new': ['((HashMap::len(self.partitions) - phi{HashMap::len(self.partitions) | count}) + 1), HashMap::len(self.partitions)']},
+    }, skip_self=False)
+    forms.check_call_args(ctx, rep, 'R17.f', {T + '::delete_persisted_partitions': {'AHashMap::remove': ['::next(::into_iter(…))']}})   # the key removed is the loop variable itself
